@@ -3,6 +3,7 @@ package scen
 import (
 	"simlal/sim"
 	"simlal/sim/media"
+	"strings"
 )
 
 // ---- plan ----------------------------------------------------------------------------------------------------------------
@@ -19,6 +20,9 @@ type UnitSpec struct {
 	Sdf   bool       `json:"sdf,omitempty"`   // metadata carries @setDataFrame
 	Empty bool       `json:"empty,omitempty"` // zero-length message of this kind's type
 	Csid  int        `json:"csid,omitempty"`
+	// Extra: non-slice NAL units of a video frame, in order: 'a' access unit delimiter, 'p' in-band parameter sets
+	// (those of the sequence header in force), 's' SEI in front of the slices; 'x' a trailing NAL (HEVC suffix SEI).
+	Extra string `json:"extra,omitempty"`
 }
 
 type PubPlan struct {
@@ -60,6 +64,8 @@ type RelayPlan struct {
 	// RtspIdle: instead of the relay ops, run the "RTSP publisher falls silent" scenario (C16): an RTSP publisher over
 	// TCP or UDP keeps sending across the first liveness sweep, then stops sending with its connection open.
 	RtspIdle *RtspIdlePlan `json:"rtsp_idle,omitempty"`
+	// PullIngest: instead of the relay ops, Pubs[0] is served by an origin that lal pulls from (C06).
+	PullIngest *PullIngestPlan `json:"pull_ingest,omitempty"`
 }
 
 type RtspIdlePlan struct {
@@ -79,6 +85,7 @@ type RelayProfile struct {
 	Republish      float64 // probability of a second incarnation on a stream
 	HeaderChange   float64 // probability per GOP of a mid-stream sequence header change
 	TsWeird        float64 // probability of odd timestamps (>= 0xFFFFFF, non-monotonic, wrap)
+	NalKinds       float64 // probability that a video frame also carries AUD / SEI / in-band parameter sets
 	BigUnits       float64 // probability of a large unit
 	ZeroLen        float64
 	Outputs        string // "relay" (rtmp/flv only) | "all"
@@ -185,6 +192,12 @@ func genUnits(r *sim.Rng, p *PubPlan, prof RelayProfile, n int) {
 			}
 			if r.Bool(0.2) {
 				u.Cts = int32(r.Intn(200))
+			}
+			if prof.NalKinds > 0 && r.Bool(prof.NalKinds) {
+				u.Extra = []string{"a", "s", "as", "p", "aps", "ps", "x", "sx", "apsx"}[r.Intn(9)]
+				if !key {
+					u.Extra = strings.ReplaceAll(u.Extra, "p", "")
+				}
 			}
 			add(u)
 			inGop++
